@@ -1,7 +1,8 @@
 (* Properties/C17.v — Restricting and expanding observables is faithful to qubit identity.
    Only theorem statements, closed by `exact`, non-vacuity examples and Print Assumptions. *)
 From Coq Require Import Sorted.
-From CKT Require Import Common.Base Model.Observables Proofs.ObservablesP.
+From Coq Require Import Permutation.
+From CKT Require Import Common.Base Model.Observables Proofs.ObservablesP Model.ObservablesExt Proofs.ObservablesExtP.
 
 (* restriction keeps exactly the selected letters in the given order and drops the phase *)
 Theorem c17_restrict : forall n qs ps, (forall q, In q qs -> q < n) ->
@@ -109,6 +110,64 @@ Proof.
   split; [apply expand_refusal_count|apply expand_refusal_missing].
 Qed.
 
+(* ---- extension round ---- *)
+
+(* The dict RETURNED BY THE PUBLIC CALL (not just the internal grouping) covers every qubit index
+   0..n-1 exactly once -- for every label value: the number the harness gives to None is a label like any
+   other, no group is skipped --, every index sits in the group of its own label, and scattering row i of
+   every group back rebuilds the original letters of observable i.  All sizes, any number of observables,
+   both input paths. *)
+Theorem c17_call_recombine : forall aslist n labels ps D,
+  length labels = n -> decompose_call aslist n labels ps = Ok D ->
+  Permutation (covered D) (seq 0 n) /\
+  (forall j, j < n -> exists qs subs, In (nth j labels 0, qs, subs) D /\ In j qs) /\
+  (forall i, i < length ps -> length (plets (nth i ps pI)) = n ->
+     recombine_row n i D = plets (nth i ps pI)).
+Proof. exact decompose_call_recombine. Qed.
+
+Theorem c17_call_cover_exactly_once : forall aslist n labels ps D,
+  length labels = n -> decompose_call aslist n labels ps = Ok D ->
+  NoDup (covered D) /\ forall j, In j (covered D) <-> j < n.
+Proof. exact decompose_call_cover. Qed.
+
+(* expansion keeps every phase on EVERY answered call (no hypothesis), and for an original circuit
+   without qubits the answer is exactly: same phases, identity on all final qubits *)
+Theorem c17_expand_phase_kept : forall nobs oq fq ps out,
+  expand nobs oq fq ps = Ok out -> map pphase out = map pphase ps.
+Proof. exact expand_phase_kept. Qed.
+
+Theorem c17_expand_zero_qubits : forall fq ps,
+  expand 0 [] fq ps = Ok (map (fun p => mkP (pphase p) (repeat 0 (length fq))) ps).
+Proof. exact expand_zero. Qed.
+
+(* THE INTERNING CONTRACT.  Labels are Python objects (any type L) compared by the dict-key equality
+   leqb; the dict keeps the first key object of a class.  Any numbering f of the labels of the call whose
+   equality IS leqb turns the Python-level grouping into the nat-level grouping all theorems above are
+   about.  (The harness monitors exactly this premise for its Interner: contract
+   interning_is_dict_key_equality.) *)
+Theorem c17_interning_contract : forall (L : Type) (leqb : L -> L -> bool) (f : L -> nat) labels,
+  (forall a b, In a labels -> In b labels -> Nat.eqb (f a) (f b) = leqb a b) ->
+  relabel L f (qubits_by_subsystem_g leqb labels) = qubits_by_subsystem (map f labels).
+Proof. exact interning_commutes. Qed.
+
+(* and the harness's Interner (first-appearance numbering, modelled as intern_list) satisfies that
+   premise whenever leqb is an equivalence: the premise is discharged, not assumed *)
+Theorem c17_interner_sound : forall (L : Type) (leqb : L -> L -> bool),
+  (forall a, leqb a a = true) -> (forall a b, leqb a b = leqb b a) ->
+  (forall a b c, leqb a b = true -> leqb b c = true -> leqb a c = true) ->
+  forall labels,
+  (forall a b, In a labels -> In b labels ->
+     Nat.eqb (intern_id leqb labels a) (intern_id leqb labels b) = leqb a b) /\
+  intern_list leqb [] labels = map (intern_id leqb labels) labels /\
+  relabel L (intern_id leqb labels) (qubits_by_subsystem_g leqb labels) =
+    qubits_by_subsystem (intern_list leqb [] labels) /\
+  Permutation (concat (map snd (qubits_by_subsystem_g leqb labels))) (seq 0 (length labels)).
+Proof.
+  intros L leqb R S T labels. split; [intros a b; now apply interner_contract|].
+  split; [now apply intern_list_is_intern_id|].
+  split; [now apply interner_commutes|now apply qubits_by_subsystem_g_cover].
+Qed.
+
 (* non-vacuity: interleaved fresh qubits, phases, a 3-label partition *)
 Example c17_ex_expand :
   expand 3 [10; 11; 12] [20; 12; 21; 10; 11] [mkP 3 [1; 2; 3]] = Ok [mkP 3 [0; 3; 0; 1; 2]].
@@ -137,6 +196,35 @@ Example c17_ex_decompose_crash :
   decompose_call false 3 [7; 5] [mkP 1 [1; 2; 3]] = Ok [(7, [0], [mkP 0 [1]]); (5, [1], [mkP 0 [2]])].
 Proof. repeat split. Qed.
 
+(* label 1 plays the role of None: its group is there, rows recombine *)
+Example c17_ex_call_recombine :
+  let ps := [mkP 2 [1; 2; 3; 0]; mkP 1 [3; 3; 0; 2]] in
+  exists D, decompose_call false 4 [7; 1; 7; 9] ps = Ok D /\
+    D = [(7, [0; 2], [mkP 0 [1; 3]; mkP 0 [3; 0]]); (1, [1], [mkP 0 [2]; mkP 0 [3]]); (9, [3], [mkP 0 [0]; mkP 0 [2]])] /\
+    covered D = [0; 2; 1; 3] /\
+    recombine_row 4 0 D = [1; 2; 3; 0] /\ recombine_row 4 1 D = [3; 3; 0; 2].
+Proof. eexists. repeat split. Qed.
+
+Example c17_ex_expand_zero_phases :
+  expand 0 [] [20; 21] [mkP 0 []; mkP 1 []; mkP 2 []; mkP 3 []]
+  = Ok [mkP 0 [0; 0]; mkP 1 [0; 0]; mkP 2 [0; 0]; mkP 3 [0; 0]].
+Proof. reflexivity. Qed.
+
+(* a non-trivial dict-key equality (several objects per class): a ~ b iff a/2 = b/2 *)
+Definition ex_leqb (a b : nat) : bool := Nat.eqb (a / 2) (b / 2).
+Example c17_ex_interner_hyps :
+  (forall a, ex_leqb a a = true) /\ (forall a b, ex_leqb a b = ex_leqb b a) /\
+  (forall a b c, ex_leqb a b = true -> ex_leqb b c = true -> ex_leqb a c = true).
+Proof.
+  unfold ex_leqb. split; [intros; apply Nat.eqb_refl|]. split; [intros; apply Nat.eqb_sym|].
+  intros a b c H1 H2. apply Nat.eqb_eq in H1, H2. apply Nat.eqb_eq. congruence.
+Qed.
+Example c17_ex_interner :
+  intern_list ex_leqb [] [4; 5; 0; 9; 1] = [0; 0; 1; 2; 1] /\
+  qubits_by_subsystem_g ex_leqb [4; 5; 0; 9; 1] = [(4, [0; 1]); (0, [2; 4]); (9, [3])] /\
+  qubits_by_subsystem [0; 0; 1; 2; 1] = [(0, [0; 1]); (1, [2; 4]); (2, [3])].
+Proof. repeat split. Qed.
+
 Print Assumptions c17_restrict.
 Print Assumptions c17_decompose.
 Print Assumptions c17_members.
@@ -150,6 +238,12 @@ Print Assumptions c17_decompose_call_total.
 Print Assumptions c17_decompose_call_crash.
 Print Assumptions c17_expand_outcome.
 Print Assumptions c17_refusal_reason.
+Print Assumptions c17_call_recombine.
+Print Assumptions c17_call_cover_exactly_once.
+Print Assumptions c17_expand_phase_kept.
+Print Assumptions c17_expand_zero_qubits.
+Print Assumptions c17_interning_contract.
+Print Assumptions c17_interner_sound.
 
 (* tie to the source: expand_observables has exactly the two refusal sites modelled above *)
 From CKT Require Import Extracted.Facts.
